@@ -4,7 +4,7 @@
    stop, end_replication, cleanup) - at the granularity of the reads and
    writes of the shared variables
        _run_state, _replication_state, the wake-up Event, _runflag, _finalized
-   (plus: "clock >= end", the command thread's reference to the worker, and
+   (plus: "clock > end", the command thread's reference to the worker, and
    whether the subscriber is still attached).  Every interleaving of these
    steps is a behaviour of the system; what CPython can do *between* them
    (preemption inside a listed step) is not modelled.
@@ -32,7 +32,7 @@ Inductive wpc :=
 | WSetFlag      (* _run(): self._runflag = True *)
 | WLoop         (* while not is_stopping_or_stopped()   (reads _run_state) *)
 | WBody         (* loop body: next event or bound reached *)
-| WSetEnding    (* bound >= end: _replication_state = ENDING *)
+| WSetEnding    (* bound = end: _replication_state = ENDING *)
 | WSetStopping  (* _run_state = STOPPING; return *)
 | WExec         (* TIME_CHANGED fired, handler running *)
 | WHStopFire    (* handler called stop(): fire STOPPING_EVENT *)
@@ -52,7 +52,7 @@ Inductive mpc :=
 | MIdle
 (* _start_impl (start, run_up_to, run_up_to_including) *)
 | MSt0 (* is_starting_or_running()? *) | MSt1 (* is_initialized()? *) | MSt2 (* replication state INITIALIZED / STARTED? *)
-| MSt3 (* clock >= end? *) | MSt4 (* _run_state = STARTING *) | MSt5 (* replication state == INITIALIZED? *)
+| MSt3 (* clock > end? *) | MSt4 (* _run_state = STARTING *) | MSt5 (* replication state == INITIALIZED? *)
 | MSt5a (* fire START_REPLICATION *) | MSt5b (* _replication_state = STARTED *) | MSt6 (* fire STARTING *)
 | MSt7 (* worker.wakeup() *) | MSt8 (* wait for _runflag, at most 1 s *) | MSt9 (* _runflag = False *)
 (* step *)
@@ -62,7 +62,7 @@ Inductive mpc :=
 | MSo0 (* is_stopping_or_stopped()? *) | MSo1 (* fire STOPPING *) | MSo2 (* _run_state = STOPPING *)
 | MSo3 (* wait until the worker waits or is finalized, at most 1 s *)
 (* end_replication *)
-| MEr0 (* replication state == STARTED? *) | MEr1 (* clock := end *) | MEr2 (* _replication_state = ENDING *)
+| MEr0 (* replication state == STARTED? *) | MEr1 (* clock := end if earlier *) | MEr2 (* _replication_state = ENDING *)
 | MEr3 (* worker.wakeup() *)
 (* cleanup *)
 | MCl0 (* remove_all_listeners; worker is None? *) | MCl1 (* _stop_impl: _run_state = STOPPING *) | MCl2 (* its wait *)
@@ -78,7 +78,10 @@ Record ostate := mkO {
   o_wake : bool;            (* wake-up Event *)
   o_runflag : bool;         (* _runflag *)
   o_final : bool;           (* worker._finalized *)
-  o_past : bool;            (* simulator_time >= end_sim_time *)
+  o_past : bool;            (* simulator_time > end_sim_time: start / step refuse then.  No step of the
+                               system makes it true (the clock never moves beyond the end: bounds are
+                               capped, end_replication sets clock := end); it is false after a normal
+                               initialize and kept only to make the check visible *)
   o_hasw : bool;            (* the simulator still references its worker *)
   o_err : bool;             (* a command raised something other than DSOLError *)
   o_det : bool;             (* listeners removed by cleanup *)
@@ -135,12 +138,11 @@ Definition wstep (s : ostate) : list ostate :=
   | WSetFlag => [up_w WLoop (up_runflag true s)]
   | WLoop => [up_w (if rs_running (o_rs s) then WBody else WFireStop) s]
   | WBody => [up_w WExec (notify (NTime 0) s);            (* another event within the bound *)
-              up_w WSetEnding (up_past true s);           (* bound reached, bound >= end *)
+              up_w WSetEnding s;                          (* bound reached, bound = end (clock := end) *)
               up_w WSetStopping s]                        (* bound reached, bound < end *)
   | WSetEnding => [up_w WSetStopping (up_ps PEnding s)]
   | WSetStopping => [up_w WFireStop (up_rs RStopping s)]
   | WExec => [up_w WLoop s;                               (* handler returns *)
-              up_w WLoop (up_past true s);                (* ... the event was at the end time *)
               up_w WLoop (up_rs RStopping s);             (* handler failed, pause strategy *)
               up_w (if rs_running (o_rs s) then WHStopFire else WLoop) s]   (* handler calls stop() *)
   | WHStopFire => [up_w WHStopSet (notify NStopping s)]
@@ -191,7 +193,7 @@ Definition mstep (loose : bool) (s : ostate) : list ostate :=
   | MSp4b => [up_m MSp5 (up_ps PStarted s)]
   | MSp5 => [up_m MSp6 (up_rs RStarted s)]
   | MSp6 => [up_m MSp7 (notify (NStart 0) s)]
-  | MSp7 => [up_m MSp8 s; up_m MSp8 (notify (NTime 0) s); up_m MSp8 (up_past true (notify (NTime 0) s))]
+  | MSp7 => [up_m MSp8 s; up_m MSp8 (notify (NTime 0) s)]
   | MSp8 => [up_m MSp9 (notify (NStop 0) s)]
   | MSp9 => [up_m MIdle (up_rs RStopped s)]
   (* stop *)
@@ -204,7 +206,7 @@ Definition mstep (loose : bool) (s : ostate) : list ostate :=
             else [up_m MIdle (up_err true s)]
   (* end_replication *)
   | MEr0 => [match o_ps s with PStarted => up_m MEr1 s | _ => refuse s end]
-  | MEr1 => [up_m MEr2 (up_past true s)]
+  | MEr1 => [up_m MEr2 s]
   | MEr2 => [up_m MEr3 (up_ps PEnding s)]
   | MEr3 => [if o_hasw s then up_m MIdle (up_wake true s) else up_m MIdle (up_err true s)]
   (* cleanup *)
